@@ -94,9 +94,9 @@ static bool precedes(const enum hh_kind kind, const struct ment *a, const struct
         if (a->i != b->i) return a->i > b->i;
         if (a->d != b->d) return a->d < b->d;
         return (uintptr_t)a->pl[3] < (uintptr_t)b->pl[3];
-    case HH_HOLDERS:    /* priority low first, then higher key */
+    case HH_HOLDERS:    /* priority low first, then last in first (arrival number in payload word 3) */
         if (a->i != b->i) return a->i < b->i;
-        return a->key > b->key;
+        return (uintptr_t)a->pl[3] > (uintptr_t)b->pl[3];
     case HH_PQ:         /* priority high first, then lower key (FIFO) */
         if (a->i != b->i) return a->i > b->i;
         return a->key < b->key;
